@@ -1343,15 +1343,13 @@ where
     U: DataType,
     V: DataType,
 {
-    /// Mutable access for the Edit API (bistellar flips).
-    ///
-    /// Like [`as_triangulation_mut`](Self::as_triangulation_mut), this drops the locate hint and
-    /// the duplicate-detection index: an edit changes cells (and, for k=1 moves, the vertex set)
-    /// behind their back.
-    pub(crate) fn triangulation_mut_for_edit(&mut self) -> &mut Triangulation<K, U, V, D> {
+    /// Drops the locate hint and the duplicate-detection index after a successful Edit-API
+    /// flip: the edit changed cells (and, for k=1 moves, the vertex set) behind their back,
+    /// as [`as_triangulation_mut`](Self::as_triangulation_mut) assumes for direct mutation.
+    /// A failed flip leaves the caches alone so that it has no observable effect.
+    pub(crate) fn invalidate_caches_after_edit(&mut self) {
         self.insertion_state.last_inserted_cell = None;
         self.spatial_index = None;
-        &mut self.tri
     }
 }
 
